@@ -333,6 +333,9 @@ static void huge_case(int kind, size_t L) {
     }
     char cfg[96];
     for (int m = 0; m < 4; m++) for (int tld = 0; tld < 2; tld++) {
+        /* mode 6531 hands a host name to the IDN converter before judging it; the converter's time and memory on a multi-megabyte name
+         * (UTF-32 copies, normalisation) are not libeav's: oversized DOMAINS go through mode 6531 up to 1 MiB only */
+        if (m == 3 && dom && L > ((size_t)1 << 20)) continue;
         snprintf(cfg, sizeof cfg, "huge=1 kind=%d len=%zu mode=%s tld=%d", kind, L, MN[m], tld);
         mc_current("huge", cfg, (const unsigned char *)"", 0);
         eav_result_t *r = EMAIL[m]((const char *)b, n, tld); int rc = r->rc; eav_result_free(r);
